@@ -42,7 +42,7 @@ T2 = ["\1 \2", "a = \1 \2", "\1 = \2", "a = (\1, \2", "a = (\1, \2)", "a = (\1 \
       "OBJECT = o GROUP = g \1 END_GROUP \2 END_OBJECT", "a = '\1 \2", "a = 1 /* \1 */ \2", "a\1=\2"]
 T3 = ["\1 \2 \3", "\1 = \2 = \3", "a = \1 \2 \3", "BEGIN_OBJECT = \1 \2 END_OBJECT = \3",
       "\1 = g a = 1 \2 = \3", "GROUP = \1 \2 \3", "a = (\1, \2 \3", "a = \1 <\2> \3"]
-T3_QUICK = T3[:3]
+T3_QUICK = T3[:2]
 
 REPLACEMENTS = ["=", ",", "(", ")", "{", "}", '"', "END", "END_GROUP", "END_OBJECT", "GROUP", "OBJECT",
                 "x", "1", "<m>", ";", "/*", "#"]
@@ -250,9 +250,14 @@ def _run(name, rule, bounds, texts, ctx, exhaustive, target_chars, max_items):
     for text in hung:                           # the watchdog had to kill the worker
         for c in K.CONFIGS:
             r = K._probe(mp.get_context("fork"), _one, [(c, text)], 30.0)
+            s.evaluations += 1
             if r is None:
                 m["spin"].setdefault(c, (text, KILLED))
-            s.evaluations += 1
+            elif r[1][0][0] == "spin":
+                m["spin"].setdefault(c, (text, r[1][0][1]))
+            elif r[1][0][0] == "bad":
+                o = r[1][0]
+                m["bad"].setdefault((c, o[1], o[2], norm_msg(o[3])), (text, o[3]))
     s.seconds = time.time() - t0
     return s, m
 
